@@ -15,6 +15,7 @@ from __future__ import annotations
 import ast
 
 from ..astutil import dotted, src, walk_local, local_assignments, calls, terminal, if_chain, parent
+from ..astutil import dominating_guards
 from ..report import AnalysisError, Frag
 
 ARITH = {"add": "+", "sub": "-", "mul": "*", "truediv": "/", "pow": "**"}
@@ -244,8 +245,42 @@ def _may_validate(prog, fi, stmts) -> bool:
     return False
 
 
+def _admitted_lengths(prog, rep):
+    """A size test that lets a second length through -- `if len(a) not in (1, n): raise` -- is a promise to broadcast
+    that length; an operand of that length which is then paired as it is (zip / index loop) silently truncates the
+    result to one element.  Positive form: the membership test, and no broadcast of that operand under `len(a) == k`."""
+    n_tests = 0
+    for fi in prog.functions.values():
+        if fi.module.name not in ("optyx.core.vectors", "optyx.core.matrices"):
+            continue
+        for st in walk_local(fi.node, include_self=False):
+            if not (isinstance(st, ast.If) and _raises_size_error(st.body)):
+                continue
+            for t in ast.walk(st.test):
+                if isinstance(t, ast.Compare) and len(t.ops) == 1 and isinstance(t.ops[0], ast.NotIn) and isinstance(t.left, ast.Call) and dotted(t.left.func) == "len" and t.left.args and isinstance(t.comparators[0], (ast.Tuple, ast.List, ast.Set)):
+                    n_tests += 1
+                    arr = src(t.left.args[0])
+                    extra = [e.value for e in t.comparators[0].elts if isinstance(e, ast.Constant) and isinstance(e.value, int)]
+                    for k in extra:
+                        broadcast = False
+                        for n in walk_local(fi.node, include_self=False):
+                            if isinstance(n, ast.Call) and (dotted(n.func) or "").split(".")[-1] in ("repeat", "full", "broadcast_to", "tile", "resize") and any(src(a) == arr or arr in src(a) for a in n.args):
+                                broadcast = True
+                            if isinstance(n, ast.BinOp) and isinstance(n.op, ast.Mult) and (arr in src(n.left) or arr in src(n.right)) and any(isinstance(x, (ast.List, ast.Call)) for x in (n.left, n.right)):
+                                # a list repeated n times counts only under a test of this operand's length
+                                if any(f"len({arr})" in src(g_) for g_, _pol in dominating_guards(n)):
+                                    broadcast = True
+                        rep.ob("R11.2", f"{fi.name}[len=={k}]", broadcast,
+                               f"an operand of length {k} is admitted by `{src(t)[:50]}` and broadcast before pairing" if broadcast else
+                               f"`{src(t)[:60]}` lets an operand of length {k} through, but {fi.name} never broadcasts `{arr}` to the other operand's size: it is paired element by element as it is, and zip() / the index loop stops after {k} element(s) -- "
+                               f"the result silently has {k} element(s) where NumPy would broadcast or raise",
+                               loc=f"{fi.module.rel}:{t.lineno}", detail="admitted-length", robust=True)
+    rep.saw("size tests admitting a second length", n_tests)
+
+
 def _truncation(prog, rep):
     _PROG["prog"] = prog
+    _admitted_lengths(prog, rep)
     # (a) operand-kind ladders of the four pairing helpers: each arm that takes elements from a sized operand is
     #     preceded by a raising size test; the default raises
     for q in ("optyx.core.vectors:_vector_binary_op", "optyx.core.vectors:_vector_constraint", "optyx.core.matrices:_matrix_binary_op", "optyx.core.matrices:_matrix_constraint"):
